@@ -384,6 +384,12 @@ def check_c(ck, repo):
                 tab = reg[0].split("[")[0]
                 ok = reg == [f"{tab}[{k}] = f'sch{step}:f{{{c}}}'"] and any(b.endswith(f".append(f'<f{{{c}}}> {{{k}}}')") for b in body) and len(body) == 2
                 res.append((l, tab, ok, src))
+            else:
+                # the registration exists but not as a plain statement of the loop body (under a
+                # condition, in a nested loop): some outputs keep the port of an earlier schema
+                deep = [_nt(x) for x in ast.walk(l) if isinstance(x, ast.Assign) and x not in l.body and re.match(r"^\w+\[%s\] = f'sch" % re.escape(k), _nt(x))]
+                if deep:
+                    res.append((l, deep[0].split("[")[0], False, src))
         return res
 
     p0 = port_loop(first, "0")
